@@ -60,6 +60,10 @@ pub fn cmd_tables(args: &[String]) -> i32 {
 /// c11-parse <in.json> <out.json>
 /// in: [{"tag":.., "cfg": kbd text, "probe":[codes]}...]; out: per entry the parse verdict, the
 /// intercept set (Cfg.mapped_keys) and the parsed actions of the probed coordinates (dump format).
+/// With "full": true the probed coordinates are the intercepted keys (when at most 8) and the
+/// output also has "layers" (every layer at those coordinates), "ovr" (defoverrides table), "seq"
+/// (defseq trie) and "chv2" (defchordsv2 table).  All entries are parsed in this one process, in
+/// the given order (the custom key-name table of the parser is process-global state).
 pub fn cmd_parse(args: &[String]) -> i32 {
     let jobs: Vec<Value> =
         serde_json::from_reader(std::fs::File::open(&args[0]).expect("in file")).expect("json");
